@@ -822,10 +822,14 @@ static void scen_run(void)
 
         /* ---- C15 (liveness, local progress): neither machine can be starved at the flush handshake, a flushing
          *      machine makes progress whenever the output accepts, and BUSY is reported while work remains ------- */
+        /* (phrased over the states after the call so that either arbitration order between the two machines passes: a machine
+         * that waits for the output while the other one is not flushing must not find the output still unused afterwards) */
         if (USTATE == CAT_UNSOLICITED_STATE_FLUSH_IO_WRITE_WAIT && STATE != CAT_STATE_FLUSH_IO_WRITE)
-                CHK(C15, o->unsolicited_fsm.state == CAT_UNSOLICITED_STATE_FLUSH_IO_WRITE, "event FSM kept waiting for the output although the command FSM is not flushing (starvation)");
-        if (STATE == CAT_STATE_FLUSH_IO_WRITE_WAIT && USTATE != CAT_UNSOLICITED_STATE_FLUSH_IO_WRITE && USTATE != CAT_UNSOLICITED_STATE_FLUSH_IO_WRITE_WAIT)
-                CHK(C15, o->state == CAT_STATE_FLUSH_IO_WRITE, "command FSM kept waiting for the output although the event FSM is not flushing (starvation)");
+                CHK(C15, o->unsolicited_fsm.state == CAT_UNSOLICITED_STATE_FLUSH_IO_WRITE || o->state == CAT_STATE_FLUSH_IO_WRITE,
+                    "event FSM kept waiting for the output although nobody is flushing (starvation)");
+        if (STATE == CAT_STATE_FLUSH_IO_WRITE_WAIT && USTATE != CAT_UNSOLICITED_STATE_FLUSH_IO_WRITE)
+                CHK(C15, o->state == CAT_STATE_FLUSH_IO_WRITE || o->unsolicited_fsm.state == CAT_UNSOLICITED_STATE_FLUSH_IO_WRITE,
+                    "command FSM kept waiting for the output although nobody is flushing (starvation)");
         if (pre_cflush && W.writes == 1 && W.wr_ret[0] == 1)
                 CHK(C15, o->position == SNAP.position + 1, "accepted byte, but the command flush made no progress");
         if (pre_cflush && W.writes == 0)
